@@ -131,6 +131,10 @@ pub open spec fn lw_premise(n: ParserNode, pre: St, post: St) -> bool {
 pub open spec fn csr_fact_on_written(n: ParserNode, out: Map<Register, AvailableValue>) -> bool {
     arch_writes(n) matches Some(rd) && out.contains_key(rd) && out[rd] is ValueInCsr
 }
+/// no register is described as "the value of a CSR" (true throughout a program without CSR instructions)
+pub open spec fn no_csr_fact(m: Map<Register, AvailableValue>) -> bool {
+    forall|r: Register| #[trigger] m.contains_key(r) ==> !(m[r] is ValueInCsr)
+}
 pub proof fn lemma_holds_eq(a: AvailableValue, b: AvailableValue, x: int, s: St, c: Ctx)
     requires av_eq(a, b),
     ensures holds(a, x, s, c) == holds(b, x, s, c),
